@@ -3,7 +3,9 @@ _p = PROPS["C17"]
 _p["theorems"] = _p["theorems"] + [
     "NeoFS.WCSched.scheduler_no_leak", "NeoFS.WCSched.scheduler_hands_over_everything", "NeoFS.WCSched.markers_always_owned",
     "NeoFS.WCSched.eventually_flushed", "NeoFS.WCSched.scheduler_leak_before_fix", "NeoFS.WCSched.original_scheduler_drops_last_address",
-    "NeoFS.WCFlush.worker_exit_clears_markers"]
+    "NeoFS.WCFlush.worker_exit_clears_markers",
+    "NeoFS.WCSched.batches_never_overwritten", "NeoFS.WCSched.worker_unmarks_its_batch", "NeoFS.WCSched.buffers_refine",
+    "NeoFS.WCSched.markers_always_owned_buffers", "NeoFS.WCSched.eventually_flushed_buffers", "NeoFS.WCSched.buffer_reuse_leaks"]
 _p["lean_modules"] = _p["lean_modules"] + ["NeoFS.Props.C17b"]
 _p["engines"] = _p["engines"] + [dict(name="wcsched", quick=1, thorough=1)]
 _p["claim"] += (" EXTENSION (Props/C17b.lean, Model/WCSched.lean): a model of flushScheduler's batch cutting (marking in flushObjs, big objects alone, "
@@ -17,11 +19,26 @@ _p["claim"] += (" EXTENSION (Props/C17b.lean, Model/WCSched.lean): a model of fl
                 "its tie, replayed, repaired (fix commits) and are kept as decide-checked negative theorems about the unrepaired loop "
                 "(original_scheduler_drops_last_address, scheduler_leak_before_fix). Tied to the REAL timer-driven scheduler and ONE real worker over a "
                 "recording, failure-injecting storage: per case the batches the storage received, the markers left with idle workers, and (wait=1) "
-                "the state after the 10 s back-off.")
+                "the state after the 10 s back-off. FLUSHES THAT SPAN PASSES (BSys in Model/WCSched.lean): a batch is a window of the pass's "
+                "sorted-address array which the worker reads again when it is done; the model keeps the arrays and distinguishes what a job was "
+                "GIVEN from what its window holds NOW. Proved over ALL histories (job ends at any distance from their hand-over, any number of "
+                "passes in between): no pass changes the window of a running job (batches_never_overwritten), so a worker that is done unmarks "
+                "every address it was given (worker_unmarks_its_batch); the array-level system refines the marker bookkeeping (buffers_refine), "
+                "hence every marker has a running job that was given it (markers_always_owned_buffers) and the fair continuation empties the "
+                "cache from any such state (eventually_flushed_buffers); an array kept between the passes leaks the marker of a stalled-then-failed "
+                "flush for ever (buffer_reuse_leaks, decide-checked negative theorem). Tied by op `span`: rounds of puts, one REAL scheduler pass "
+                "per round, while the first main-storage call carrying a chosen id is held open inside the storage (one more worker than held "
+                "calls), then the held calls end ok/failed; at every quiescent point the calls the storage received, cache files and the REAL "
+                "flushObjs markers are compared with the model and the oracles are evaluated: markers = addresses of the held calls, a finished "
+                "worker has unmarked what it was given, no object reaches the storage twice at once, cache empty and main storage complete "
+                "after the back-off.")
 _p["note"] += (" Extension: fairness itself (the ticker fires, workers are scheduled, the storage eventually accepts) is an assumption of "
                "eventually_flushed, stated as the explicit 3-phase continuation; the 1 s tick and 10 s back-off are real time in the run "
-               "(cases run concurrently; a case whose timing was disturbed is repeated); equal sizes are avoided (Go map order decides ties).")
+               "(cases run concurrently; a case whose timing was disturbed is repeated); equal sizes are avoided (Go map order decides ties). span: passes are the real 1 s ticks; the harness makes the scheduler skip a tick "
+               "(fault point writecache.flush.scheduler, dispatched to the case through the creator goroutine of the scheduler) while a round's puts or "
+               "the end of a held call are in progress, and awaits quiescence by polling the property's own condition with an 8 s timeout.")
 _p["rule"] += ("; wcsched: 4 boundary cases + 10 (quick) / 60 (thorough) seeded cases of 1..8 objects on both sides of the batch threshold, count limit "
-               "2/3/128, size limit 900/1e6, failing storage call 0..3, two (thorough: a quarter) with the 10 s back-off; non-trivial = a storage call fails")
+               "2/3/128, size limit 900/1e6, failing storage call 0..3, two (thorough: a quarter) with the 10 s back-off; non-trivial = a storage call fails; span: 7 corpus cases + 8 (quick) / 40 (thorough) seeded cases of 2..3 rounds of "
+               "1..4 objects, 1..2 held calls ending ok/failed (a failure is followed through the back-off); non-trivial = a held call and more than one round")
 ENGINES.append({"name": "wcsched", "path": "harness/eng_wcsched.go", "serves_properties": ["C17"],
-                "kind_free_text": "runs the real flushScheduler (1 s tick, 10 s back-off) with one worker over a recording failure-injecting storage against Model/WCSched.lean"})
+                "kind_free_text": "runs the real flushScheduler (1 s tick, 10 s back-off) and real workers over a recording, failure-injecting, call-holding storage against Model/WCSched.lean"})
